@@ -25,3 +25,58 @@ Definition run_from_db (sq s : list ascii) : val :=
   vres (fun ps => vlist ventry (from_db sq ps)) (parse_db s).
 Definition run_lossless (b : bpseq) (s : list ascii) : val := vbool (lossless b s).
 Definition run_pairs_dict (b : bpseq) : val := vpairs (pairs_dict b).
+
+(* ---- MILP, all-dot-brackets, elements *)
+From RV Require Import Model.Milp Model.AllDb Model.Elements.
+
+Definition point_of (ones : list (nat * nat)) : point :=
+  fun i o => existsb (fun p => (fst p =? i) && (snd p =? o)) ones.
+
+(* kind: 0 = no solver, 1 = raises, 2 = not optimal, 3 = optimal with the given ones *)
+Definition answer_of (kind : nat) (ones : list (nat * nat)) : option solver_answer :=
+  match kind with
+  | 0 => None
+  | 1 => Some SolverRaises
+  | 2 => Some NotOptimal
+  | _ => Some (Optimal (point_of ones))
+  end.
+Definition run_convert (b : bpseq) (kind : nat) (ones : list (nat * nat)) : val :=
+  vres vstr (convert (answer_of kind ones) b).
+
+Definition run_lp (b : bpseq) : val :=
+  let rs := regions b in
+  let n := length rs in
+  let m := max_order rs in
+  VL [vnat n; vnat m;
+      VL (map (fun io => VZ (obj_coef (Z.of_nat (snd io)) (rlen (nth (fst io) rs (0, 0, 0)))))
+              (list_prod (seq 0 n) (seq 0 m)));
+      VL (flat_map (fun i => flat_map (fun j => map (fun o => VL [vnat i; vnat j; vnat o]) (seq 0 m))
+                                      (neighbours (adj_db rs) n i)) (seq 0 n));
+      vbool milp_rows_as_modelled].
+
+Definition run_feasible (b : bpseq) (ones : list (nat * nat)) : val :=
+  vbool (feasible (regions b) (point_of ones)).
+Definition run_objective (b : bpseq) (ones : list (nat * nat)) : val :=
+  VZ (objective (regions b) (point_of ones)).
+
+(* spec for C02: the string is a proper assignment and its score is the optimum *)
+Definition run_optimal (b : bpseq) (s : list ascii) : val :=
+  let rs := regions b in
+  let ord := levels_of rs s in
+  VL [vbool (properb (adj_db rs) ord); VZ (score rs ord); VZ (opt_score rs)].
+Definition run_score (b : bpseq) (s : list ascii) : val := VZ (score (regions b) (levels_of (regions b) s)).
+
+Definition run_all_db (b : bpseq) : val := vres (vlist vstr) (all_db b).
+Definition run_stable_db (b : bpseq) : val := vres (vlist vstr) (stable_db b).
+
+Definition vstrand (s : strand) : val := VL [vnat (s_first s); vnat (s_last s); vstr (s_seq s); vstr (s_str s)].
+Definition run_elements (b : bpseq) (db : list ascii) : val :=
+  let e := elements b db in
+  VL [vlist (fun p => VL [vstrand (fst p); vstrand (snd p)]) (el_stems e);
+      vlist (fun p => VL [vstrand (fst (fst p)); vbool (snd (fst p)); vbool (snd p)]) (el_single e);
+      vlist vstrand (el_hairpins e);
+      vlist (vlist vstrand) (el_loops e)].
+
+Definition vbpseq (b : bpseq) : val := vlist ventry b.
+Definition run_without_isolated (b : bpseq) : val := vbpseq (without_isolated b).
+Definition run_without_pk (b : bpseq) (db : list ascii) : val := vres vbpseq (without_pseudoknots_of b db).
